@@ -270,6 +270,7 @@ class TemplateGen:
         else:
             bits = [r.randrange(2) for _ in range(n)]
         self.forced.setdefault(31031, []).extend(bits)
+        self.bitmap_segments = getattr(self, 'bitmap_segments', []) + [len(bits)]
         if r.random() < 0.3:
             self.forced.setdefault(31002, []).append(n)
             self.features['bitmap-delayed-def'] += 1
@@ -315,7 +316,15 @@ class TemplateGen:
             if op in (224, 225) and r.random() < 0.8:
                 out.append(8023 if op == 224 else 8024)
             markers = [op * 1000 + 255] * k
-            if k >= 1 and self.allow_ops and r.random() < 0.4:
+            if k >= 2 and r.random() < 0.3:
+                # the marker operator replicated instead of written k times (a one-statement loop body)
+                markers = [101000 + k, op * 1000 + 255]
+                self.features['marker-replicated'] += 1
+                if self.allow_ops and r.random() < 0.6:
+                    on = r.choice([201129, 201130, 202129, 207001, 208002])
+                    markers = [on] + markers + [on // 1000 * 1000]
+                    self.features['marker-under-%d' % (on // 1000)] += 1
+            elif k >= 1 and self.allow_ops and r.random() < 0.4:
                 # some of the markers while a width/scale/string-width modifier is in force, the rest after its cancellation
                 j = r.randint(1, k - 1) if k >= 2 else 1     # a later marker follows the cancellation when there are two
                 on = r.choice([201129, 201130, 201132, 202129, 202130, 207001, 207002, 208002, 208005])
